@@ -283,6 +283,25 @@ fn chk_lazy(mode: &str, rg: Range, bytes: &[u8]) -> Result<(), String> {
                 }
             }
         }
+        // a single Interrupted answer in the middle of a tile that arrives in pieces: the lookup may fail or succeed, but a
+        // success must carry the tile's bytes (a retry must not restart the buffer at the advanced position)
+        if let Some((id, ol)) = in_range.iter().find(|(_, ol)| ol.1 >= 8) {
+            for nth in [2usize, 3] {
+                sh.0.borrow_mut().sched = crate::streams::Schedule { chunks: vec![3], pend: vec![] };
+                let k = sh.0.borrow().ops;
+                sh.0.borrow_mut().fail_at = Some(k + nth);
+                sh.0.borrow_mut().fail_kind = usize::MAX;
+                let r = catch_unwind(AssertUnwindSafe(|| pm.get_tile_by_id(*id))).map_err(|_| "get_tile_by_id panicked on an Interrupted answer".to_string())?;
+                sh.0.borrow_mut().fail_at = None;
+                sh.0.borrow_mut().fail_kind = 0;
+                sh.0.borrow_mut().sched = crate::streams::Schedule::default();
+                if let Ok(got) = r {
+                    if got.as_deref() != Some(spec::tile_bytes(bytes, h, *ol)?) {
+                        return Err(format!("lookup of tile {id} interrupted once in the middle returned other bytes"));
+                    }
+                }
+            }
+        }
         // an id that is not present reads nothing
         sh.0.borrow_mut().log.clear();
         let _ = pm.get_tile_by_id(u64::MAX - 3);
@@ -335,6 +354,25 @@ fn chk_lazy(mode: &str, rg: Range, bytes: &[u8]) -> Result<(), String> {
                 }
                 if got.as_deref() != Some(spec::tile_bytes(bytes, h, c.1)?) {
                     return Err(format!("after a failed async lookup, the lookup of tile {} returned other bytes", c.0));
+                }
+            }
+        }
+        // a single Interrupted answer in the middle of a tile that arrives in pieces: the lookup may fail or succeed, but a
+        // success must carry the tile's bytes (a retry must not restart the buffer at the advanced position)
+        if let Some((id, ol)) = in_range.iter().find(|(_, ol)| ol.1 >= 8) {
+            for nth in [2usize, 3] {
+                sh.0.lock().unwrap().sched = crate::streams::Schedule { chunks: vec![3], pend: vec![] };
+                let k = sh.0.lock().unwrap().ops;
+                sh.0.lock().unwrap().fail_at = Some(k + nth);
+                sh.0.lock().unwrap().fail_kind = usize::MAX;
+                let r = catch_unwind(AssertUnwindSafe(|| block_on(pm.get_tile_by_id_async(*id)))).map_err(|_| "get_tile_by_id_async panicked on an Interrupted answer".to_string())?;
+                sh.0.lock().unwrap().fail_at = None;
+                sh.0.lock().unwrap().fail_kind = 0;
+                sh.0.lock().unwrap().sched = crate::streams::Schedule::default();
+                if let Ok(got) = r {
+                    if got.as_deref() != Some(spec::tile_bytes(bytes, h, *ol)?) {
+                        return Err(format!("async lookup of tile {id} interrupted once in the middle returned other bytes"));
+                    }
                 }
             }
         }
